@@ -1535,19 +1535,20 @@ def rule_timeparts(cx, chk):
                     got = tuple(it.getattr(r, p, None, None) for p in ('hour', 'minute', 'second'))
                 except oi.PyExc as ex:
                     got = 'raises %s' % ex
-                ok = isinstance(got, tuple) and all(isinstance(x, (int, float)) and not isinstance(x, bool) for x in got) \
+                # integral components: a float second is copied into resolved TIMEXes and printed as 'T08:00:30.0'
+                ok = isinstance(got, tuple) and all(isinstance(x, int) and not isinstance(x, bool) for x in got) \
                     and got == (h, m, sec)
-                if ok:
+                if isinstance(got, tuple):
                     floats |= {p for p, x in zip(('hour', 'minute', 'second'), got) if isinstance(x, float)}
                 if not ok and bad is None:
                     bad = ((h, m, sec), got)
     chk.judge(bad is None, 'C15.timeparts', tc.mod.path, 'Time.from_seconds(Time(h,m,s).get_time()) on %d clock times' % n,
               '= (h, m, s)' if bad is None else '%s -> %s' % bad,
-              'Time.from_seconds(Time%s.get_time()) is %s: the time of day does not survive the conversion that '
-              'TimeRange.collapse_overlapping and the time-range resolver rely on' % (bad or ('', '')), fs.lineno)
-    if floats:
-        chk.observe('Time.from_seconds yields a float for %s (equal in value): TimexRangeResolver.resolve_timerage copies it into '
-                    'the result, whose timex_value() then prints e.g. T08:00:30.0' % ', '.join(sorted(floats)))
+              'Time.from_seconds(Time%s.get_time()) is %s: the time of day does not survive, as integral hour / minute / second, the '
+              'conversion that TimeRange.collapse_overlapping and the time-range resolver rely on%s'
+              % ((bad or ('', '')) + (' (%s come back as float: TimexRangeResolver.resolve_timerage copies them into the result, whose '
+                                      'timex_value() then prints e.g. T08:00:30.0)' % ', '.join(sorted(floats)) if floats else '',)),
+              fs.lineno)
 
 
 def rule_owntime(cx, chk):
